@@ -7,4 +7,5 @@ CONSTANTS
   Shard = 0
   NShards = 1
 INVARIANT TypeOK
+INVARIANT Inv
 CHECK_DEADLOCK FALSE
